@@ -226,7 +226,7 @@ impl RealWorld
                     None => Ok(false),
                 }
             }
-            Op::Tamper { t, content } =>
+            Op::Tamper { t, content } | Op::TamperOld { t, content } =>
             {
                 let ts = self.model.all_targets();
                 let p = ts[gen::pick(*t, ts.len())].clone();
